@@ -4,6 +4,7 @@
     check <Cxx> quick|thorough          run a check (exit 0 held / 1 violation / 2 inconclusive)
     check <Cxx> --replay <file>         re-execute one saved scenario, bypassing the PBT library
     check setup                         stage, pre-build every test binary (MANIFEST.setup_cmd)
+    check clean                         remove generated programs, binaries, work directories
 
 Everything random is derived from VERIF_SEED; VERIF_REPO (default /repo) is the tree under test.
 """
@@ -679,9 +680,20 @@ def setup():
     return 1 if bad else 0
 
 
+def clean():
+    """Remove everything the checks generate and can regenerate (generated programs, test binaries, work dirs, the scratch build cache)."""
+    for d in [os.path.join(H, 'gen'), os.path.join(H, '.bin'), os.path.join(H, '.stage'), os.path.join(H, '.mod'), os.path.join(ROOT, '.work'),
+              '/root/.cache/go-build-verif-scratch']:
+        shutil.rmtree(d, ignore_errors=True)
+    print('clean: removed generated programs, binaries, work directories and the scratch build cache')
+    return 0
+
+
 def main(argv):
     if len(argv) >= 2 and argv[1] == 'setup':
         return setup()
+    if len(argv) >= 2 and argv[1] == 'clean':
+        return clean()
     if len(argv) == 4 and argv[2] == '--replay':
         return replay(argv[1], argv[3])
     if len(argv) == 3 and argv[1] in PROPS and argv[2] in ('quick', 'thorough'):
